@@ -2,6 +2,7 @@ package main
 
 import (
 	"bytes"
+	"encoding/json"
 	"fmt"
 	"regexp"
 	"strconv"
@@ -160,9 +161,17 @@ func containsSecret(log string, secret string) string {
 
 // logSession runs one scripted session at log level `level`; returns the captured log, the logger level seen
 // while the authentication frame was written, and the number of "write…" records emitted before that write
+// logFormatter: the formatter of the sessions run next (nil = logrus' default text formatter)
+var logFormatter logrus.Formatter
+
 func logSession(level int, password string, scenario int, extraSecret string) (log string, window int, writesBefore int, res string) {
 	logMu.Lock()
 	defer logMu.Unlock()
+	if logFormatter != nil {
+		oldF := rscp.Log.Formatter
+		rscp.Log.SetFormatter(logFormatter)
+		defer rscp.Log.SetFormatter(oldF)
+	}
 	var buf bytes.Buffer
 	old := rscp.Log.Out
 	oldLevel := rscp.Log.GetLevel()
@@ -284,6 +293,25 @@ func init() {
 			levels = nil
 			for l := 0; l <= 98; l++ {
 				levels = append(levels, l)
+			}
+		}
+		// the same sessions with logrus' JSON formatter (fields and message are serialised by encoding/json, not by fmt)
+		for _, lvl := range []int{4, 5, 6, 7, 98} {
+			for _, scenario := range []int{0, 1, 2} {
+				logFormatter = &logrus.JSONFormatter{}
+				pw, passphrase := g.secret(), g.secret()
+				log, _, _, res := logSession(lvl, pw, scenario, passphrase)
+				logFormatter = nil
+				prop := "pass"
+				// JSON escapes quotes, backslashes and control characters: look for the JSON spelling as well
+				jpw, _ := json.Marshal(pw)
+				jph, _ := json.Marshal(passphrase)
+				if how := containsSecret(log+"\n"+res, pw); how != "" || strings.Contains(log, string(jpw[1:len(jpw)-1])) {
+					prop = fmt.Sprintf("FAIL C11 with the JSON formatter the password appears in the log at level %d (scenario %d) %s", lvl, scenario, how)
+				} else if containsAnyForm(log, passphrase) || strings.Contains(log, string(jph[1:len(jph)-1])) {
+					prop = fmt.Sprintf("FAIL C11 with the JSON formatter the passphrase of a nested secret-tagged message appears as text at level %d", lvl)
+				}
+				cw.add("skip", "skip", fmt.Sprintf("N log session json-formatter level=%d scenario=%d", lvl, scenario), prop)
 			}
 		}
 		for _, lvl := range levels {
